@@ -7,7 +7,7 @@ prefix notation (strings that may contain spaces are `=` followed by dot-separat
   schema  := nct ctype* nel elemdecl* nty (name ty)*
   ctype   := "C" name? content np particle* na attrdecl*
   content := "cs" stype | "ce" | "cm" | "cz"
-  particle:= "PE" elemdecl k name* | "PA" ("~" | k ns*)
+  particle:= "PE" elemdecl k name* | "PA" skip(0|1) ("~" | k ns*)
   elemdecl:= "D" name ty nillable(0|1) default?
   attrdecl:= "A" name stype default?
   ty      := "TS" stype | "TC" id
@@ -131,8 +131,8 @@ def pParticle : P Particle
     let (d, r) ← pElemDecl r
     let (sub, r) ← pCounted pName r
     pure (.elem d sub, r)
-  | "PA" :: "~" :: r => some (.any none, r)
-  | "PA" :: r => (pCounted pName r).map fun (l, r) => (.any (some l), r)
+  | "PA" :: sk :: "~" :: r => some (.any none (sk == "1"), r)
+  | "PA" :: sk :: r => (pCounted pName r).map fun (l, r) => (.any (some l) (sk == "1"), r)
   | _ => none
 
 def pContent : P Content
@@ -259,10 +259,28 @@ def flagsFor (t : Option SType) (text : String) : String :=
   match t with
   | none => ""
   | some T =>
-    ",".intercalate ((if derivedViaPrimitive T then ["F20c"] else []) ++
-      (if unionMemberSkipped T then ["F20h"] else []) ++
+    ",".intercalate ((if unionMemberSkipped T then ["F20h"] else []) ++
+      (if facetDecides T text then ["F20j"] else []) ++
       (if listOfUnionMixed T text then ["F20g"] else []) ++
       (if pyOnlyLexical T text then ["F20i"] else []))
+
+def showOps (vs : Option (List Atom)) : String :=
+  match vs with
+  | none => "-"
+  | some vs => s!"{opPlus1 vs},{opEq7 vs},{opEqTrue vs},{opEqStr "abc" vs}"
+
+def tvOpt : TV → Option (List Atom)
+  | .ok vs => some vs
+  | _ => none
+
+/-- `element(*, T?)` on a nilled element: the code (`_xpath2_operators.py:737-739`) accepts any `T`;
+the specification requires the declared type to be `T` or derived from it -/
+def nilBits (nil : Bool) (ct : Option SType) : String × String :=
+  if !nil then ("~", "~") else
+  (bits (B.all.map fun _ => true),
+   match ct with
+   | some t => bits (B.all.map fun T => derivesFromB t T)
+   | none => "~")
 
 def kindChar (s : Schema) (a : Ann) : String :=
   match a.xsdType with
@@ -283,11 +301,11 @@ def report (fv : Bool) (s : Schema) : Nat → Forest Ann → List String
     let m := elemTypedValue s a ats kids
     let sp := specElemValue s a ats kids
     let ct := a.xsdType.bind (contentType s)
-    let me := s!"n{start}|T={(a.typeName s).getD "~"}|E={if a.xsdElem.isSome then 1 else 0}|C={kindChar s a}|M={showTV m}|S={showSpec sp}|K={flagsFor ct (elemText a kids)}|IM={instBits (tvAtoms m)}|IS={instBits (sp.getD [])}"
+    let me := s!"n{start}|T={(a.typeName s).getD "~"}|E={if a.xsdElem.isSome then 1 else 0}|C={kindChar s a}|M={showTV m}|S={showSpec sp}|K={flagsFor ct (elemText a kids)}|IM={instBits (tvAtoms m)}|IS={instBits (sp.getD [])}|OM={showOps (tvOpt m)}|OS={showOps sp}|NM={(nilBits (nilled ats) ct).1}|NS={(nilBits (nilled ats) ct).2}"
     let attrs := (attrNodesV fv s a ats).zipIdx.map fun (an, k) =>
       let am := attrTypedValue an
       let asp := specAttrValue an.type an.value
-      s!"a{start}.{k}|N={an.name}|T={an.typeName.getD "~"}|D={if an.defaulted then 1 else 0}|M={showTV am}|S={showSpec asp}|K={flagsFor an.type an.value}|IM={instBits (tvAtoms am)}|IS={instBits (asp.getD [])}"
+      s!"a{start}.{k}|N={an.name}|T={an.typeName.getD "~"}|D={if an.defaulted then 1 else 0}|M={showTV am}|S={showSpec asp}|K={flagsFor an.type an.value}|IM={instBits (tvAtoms am)}|IS={instBits (asp.getD [])}|OM={showOps (tvOpt am)}|OS={showOps asp}"
     (me :: attrs) ++ report fv s (start + 1 + ats.length) kids ++
       report fv s (start + 1 + ats.length + fsize kids) rest
 
